@@ -6,6 +6,7 @@ C.7 Mathematical Formulas (p187)
 from plasTeX.Base.LaTeX.Arrays import Array
 from plasTeX import Command, Environment, sourceChildren, NoCharSubEnvironment
 from plasTeX import DimenCommand, GlueCommand, TeXFragment
+from plasTeX.Base.TeX.Primitives import BoxCommand
 from typing import Optional
 
 #
@@ -690,8 +691,8 @@ class boldmath(Command):
 class unboldmath(Command):
     pass
 
-class text(Command):
-    args = 'self'
+class text(BoxCommand):
+    """ Text inside a formula; `$...$` inside of it is a formula of its own """
 
 # Math Style
 
